@@ -12,6 +12,7 @@ mod c10;
 mod c12;
 mod c13;
 mod c14;
+mod c16;
 mod c17;
 mod driver;
 mod procs;
@@ -55,6 +56,7 @@ fn main() {
                 std::process::exit(2);
             }
         },
+        "cfgprobe" => c16::cfgprobe(&args[2]),
         "nestprobe" => c05::nestprobe(args[2].parse().unwrap(), &args[3]),
         "run" => {
             let prop = args[2].clone();
@@ -93,6 +95,7 @@ fn main() {
                 "C10" => c10::run_c10(&ctx, &mut o),
                 "C11" => c10::run_c11(&ctx, &mut o),
                 "C12" => c12::run(&ctx, &mut o),
+                "C16" => c16::run(&ctx, &mut o),
                 "C17" => c17::run(&ctx, &mut o),
                 "C14" => c14::run(&ctx, &mut o),
                 "C13" => c13::run(&ctx, &mut o),
